@@ -92,7 +92,7 @@ impl Agg {
         }
         self.sim_nanos += r.sim_nanos as i128;
         self.steps += r.steps;
-        self.hashes.insert(r.idx, r.log_hash);
+        self.hashes.insert(r.seed, r.log_hash);
         if let Verdict::Harness(m) = &r.verdict {
             if self.harness_errors.len() < 20 {
                 self.harness_errors.push(format!("run {} seed {}: {}", r.idx, r.seed, m));
@@ -298,7 +298,7 @@ pub fn run_check(o: &Opts) -> i32 {
     if let Some(p) = &o.hash_log {
         let mut s = String::new();
         for (i, h) in &agg.hashes {
-            s.push_str(&format!("{i} {h:016x}\n"));
+            s.push_str(&format!("{i:020} {h:016x}\n"));
         }
         let _ = std::fs::write(p, s);
     }
